@@ -22,7 +22,9 @@ def value_corpus(F, tier, name):
     recs += gen.g_tie_digit_counts(F, rng, tier)
     recs += gen.g_disguised_wrap(F, rng, tier)
     recs += gen.g_short_eighths(F, rng, tier)[:: 2 if q else 1]
+    recs += gen.g_pow5_thresholds(F, rng, tier)
     recs += gen.g_zero_limbs(F, rng, tier)
+    recs += gen.g_sparse_bigmant(F, rng, 10 if q else 200) if F.name == "f64" else []
     recs += gen.g_budget_splits(F, rng, tier)[:: 3 if q else 1]
     recs += gen.g_extremes(F, rng, big=20000 if q else 1000000)
     recs += gen.g_runs(F, rng, 80 if q else 3000)
@@ -386,6 +388,11 @@ def float_bits_corpus(F, rng, tier):
         pats = gen.sig_patterns(F, rng, 2 if q else 8)
         for fr in (rng.sample(pats, 4) if q else rng.sample(pats, 8)):
             out.append((ef << F.mbits) | fr)
+    if q:
+        # EVERY exponent field gets at least one random significand (a shortcut that is wrong in one binade only -
+        # a particular power of ten times a particular range of w - is otherwise sampled with probability 150 / 2046)
+        for ef in range(0, F.emaxfield):
+            out.append((ef << F.mbits) | rng.getrandbits(F.mbits))
     out += [0, 1, 2, F.infbits - 1]
     return sorted(set(out))
 
@@ -424,6 +431,18 @@ def c03(tier):
             b = int.from_bytes(raw, "little")
             if 0 < b < F.infbits:
                 floats.append({"fmt": F.name, "bits": core.limbs(b), "only": "shortest"})
+    # floats next to w x 10^q with w x 5^q at a power of two (q = 0..27): rendered with 17 digits they are the inputs of
+    # "exact integer product" shortcuts and 64-bit overflow tests
+    for F, fmtc in ((gen.F64, "<d"), (gen.F32, "<f")):
+        th = gen.pow5_thresholds(F, rng)
+        for (w, qq) in (th[:: 3] if tier == "quick" else th):
+            try:
+                raw = struct.pack(fmtc, float("%de%d" % (w, qq)))
+            except (OverflowError, ValueError):
+                continue
+            b = int.from_bytes(raw, "little")
+            if 0 < b < F.infbits:
+                floats.append({"fmt": F.name, "bits": core.limbs(b)})
     # floats whose shortest rendering takes the disguised fast path with a scaled significand that wraps 64 bits
     for (m, qq) in gen.disguised_wrap(gen.F64, rng, 6 if tier == "quick" else 200):
         x = float("%de%d" % (m, qq))
@@ -579,12 +598,16 @@ def c15(tier):
         inputs += gen.g_runs(F, rng, 80 if q else 1500)
         inputs += gen.g_seams(F, rng)[:: 3 if q else 1]
         inputs += gen.g_extremes(F, rng, big=20000)
-    inputs = gen.normalise(gen.dedup(inputs))
+    inputs = gen.dedup(inputs)
+    # the same inputs through iterators that do not know their length (filter; a hand-written iterator with
+    # size_hint (0, None)): code that copies the digits "when the iterator is not a slice" allocates only then
+    inputs = gen.normalise([dict(r, shape=sh) for sh in (0, 2, 5) for r in inputs])
     parsecheck.parse_property_check(
         "C15", tier, inputs, cfgs + extra, {"ALLOCS", "NOPANIC"},
         rule="allocation requests (alloc/alloc_zeroed/realloc) counted by a #[global_allocator] in the harness around each "
              "parse_float call, per thread; configurations without the alloc feature must show 0; inputs chosen so that the "
-             "big-integer path (incl. long multiplication by 5^135) is reached",
+             "big-integer path (incl. long multiplication by 5^135) is reached; every input through slice iterators, through "
+             "`filter` and through a hand-written iterator with size_hint (0, None)",
         level_note="instrument: counting global allocator (the specification fixes what is permitted: allocs = 0 unless alloc); "
                    "alloc builds are recorded informationally")
 
@@ -1314,6 +1337,17 @@ def c08(tier):
     q = tier == "quick"
     mc = mc_run("MC_Garbage", "MC_Garbage", "C08-mc", timeout=1800)
     inputs = gen.g_garbage(gen.rng_for("C08"), tier)
+    # well-formed decimals are arbitrary bytes too: the ones that drive the big integers furthest (zero limbs inside the
+    # multiplier, integer parts ending in 64..192 zeros, the decimal point next to the digit budget)
+    rngd = gen.rng_for("C08deep")
+    deep = gen.g_sparse_bigmant(gen.F64, rngd, 8 if q else 80) + gen.g_zero_limbs(gen.F64, rngd, tier)[:: 6 if q else 1] + \
+        gen.g_budget_splits(gen.F64, rngd, tier)[:: 12 if q else 2] + gen.g_budget_splits(gen.F32, rngd, tier)[:: 12 if q else 2]
+    for r in deep:
+        raw = lambda ds: [{"d": [48 + int(c) for c in ds], "n": 1}] if ds else []
+        inputs.append({"fmt": r["fmt"], "int": raw(r["int"]), "frac": raw(r["frac"]), "exp": r["exp"], "raw": True,
+                       "tag": "C08:valid-sparse" if r["tag"].startswith("G22") else "C08:valid-deep"})
+    for k, r in enumerate(inputs):
+        r["id"] = k + 1
     plan = [("release", None, ["std", "std+compact", "std+alloc"] if q else core.ALL_CONFIGS),
             ("checked", None, ["std"] if q else ["std", "std+compact", "std+alloc", "compact"]),
             ("release", "asan", ["std", "std+alloc"] if q else ["std", "std+alloc", "std+compact", "compact+alloc"])]
@@ -1356,9 +1390,8 @@ def c08(tier):
                 raise core.ToolError("C08 record not adjudicated: %s" % v)
         cov_extra = {"spec_trails": dict(trails), "model": {k: (v[:20] if isinstance(v, list) else v) for k, v in res.model.items()}}
     # Miri (Tree Borrows) on a reduced batch: sees intra-object overflow and uninitialised reads, which ASan cannot
-    miri = None
-    if not q:
-        miri = run_miri(wd, inputs)
+    miri = run_miri(wd, inputs, q)
+    if True:
         if miri.get("error"):
             violations.append(core.write_replay("C08", {"property": "C08", "what": "Miri reported undefined behaviour", "output_tail": miri["error"]}))
     tags = collections.Counter(r["tag"] for r in inputs)
@@ -1384,18 +1417,21 @@ def c08(tier):
     core.finish("C08", violations, known)
 
 
-def run_miri(wd, inputs):
+def run_miri(wd, inputs, quick=False):
     inp = os.path.join(wd, "miri-in.ndjson")
     outp = os.path.join(wd, "miri-out.ndjson")
-    # a few records of every family (Miri is ~1000x slower than native), short ones first
+    # a few records of every family (Miri is ~1000x slower than native), short ones first; the quick tier takes the
+    # families that reach deepest into the vectors (a couple of records each)
     by_tag = collections.defaultdict(list)
     for r in inputs:
-        if core.segs_len(r["int"]) + core.segs_len(r["frac"]) <= 2100:
+        if core.segs_len(r["int"]) + core.segs_len(r["frac"]) <= (900 if quick else 2100):
             by_tag[r["tag"]].append(r)
     small = []
+    per = {"C08:valid-sparse": 8, "C08:valid-deep": 8, "C08:accumulate": 4, "C08:all-zeros": 3, "C08:zeros": 2, "C08:one-bad-byte": 2} if quick else None
     for tag, lst in sorted(by_tag.items()):
         rng = gen.rng_for("miri" + tag)
-        small += rng.sample(lst, min(len(lst), 60))
+        n = per.get(tag, 0) if per is not None else 60
+        small += rng.sample(lst, min(len(lst), n))
     core.write_ndjson(inp, [{k: v for k, v in r.items() if k != "tag"} for r in small])
     env = {"MIRIFLAGS": "-Zmiri-tree-borrows -Zmiri-disable-isolation", "CARGO_TARGET_DIR": os.path.join(core.HARNESS, "target", "miri")}
     # release profile: with overflow checks on, a clean arithmetic panic can mask an undefined access further down
